@@ -360,6 +360,11 @@ def _unescape_tla(s):
     return "".join(out)
 
 
+def parse_replay_payload(raw):
+    """The JSON object of one REPLAY line, from the raw payload given to on_raw."""
+    return json.loads(_unescape_tla(raw))
+
+
 class TlcResult:
     def __init__(self):
         self.replays = []
@@ -376,9 +381,11 @@ class TlcResult:
 
 def run_tlc(module, cfg=None, workers=8, simulate=None, depth=None, timeout=1800,
             env_extra=None, dfs=False, keep_lines=False, on_replay=None, coverage=False,
-            heap="4g", seed_=None, gendir=None):
+            heap="4g", seed_=None, gendir=None, on_raw=None):
     """Run TLC on spec/<module>.tla with spec/<cfg>.cfg.  REPLAY lines are parsed
-    (JSON) and collected or streamed to on_replay."""
+    (JSON) and collected or streamed to on_replay.  With on_raw the payload of each
+    REPLAY line is handed over unparsed (parse it with parse_replay_payload, e.g. in
+    worker processes, when millions of lines make the parsing the bottleneck)."""
     cfg = cfg or module
     run_id = "%s-%s-%d" % (module, cfg, os.getpid())
     meta = os.path.join(BUILD, "tlc", run_id)
@@ -416,6 +423,9 @@ def run_tlc(module, cfg=None, workers=8, simulate=None, depth=None, timeout=1800
         for line in p.stdout:
             line = line.rstrip("\n")
             m = _REPLAY_RE.match(line)
+            if m and on_raw:
+                on_raw(m.group(1))
+                continue
             if m:
                 try:
                     obj = json.loads(_unescape_tla(m.group(1)))
